@@ -27,7 +27,4 @@ def extra(res, repo, tier, seed):
     got = re.findall(r'impl_cache!\((\w+)\);', s)
     if sorted(got) != ['Clocks', 'OtherState', 'PoolStorage']:
         res.undecided.append(f'anchor drift: impl_cache! is instantiated for {got}, the check was written for Clocks, OtherState, PoolStorage')
-    for pat, what in [(r'storage\.clocks = state\.clocks;', 'market commit copies dirty clocks'), (r'storage\.other = state\.other;', 'market commit copies dirty other state'),
-                      (r'if pool\.is_dirty\(rev\) \{', 'market commit copies only dirty pools')]:
-        if not re.search(pat, s):
-            res.undecided.append(f'anchor lost: buffer.rs: {what} (/{pat}/ not found)')
+    # the three text anchors of the market commit are gone: RevertibleBuffer::commit_to_storage is a unit now (verus/C21_market.rs)
